@@ -745,6 +745,11 @@ def run_switched(case):
     names = [n for n, r in (("p1", req[0]), ("p2", req[1]), ("y0", case["y0req"]), ("ts", case["tsreq"])) if r]
     if not wrt:
         return discard("nothing_to_differentiate", labels)
+    if method in ("rk45", "rk23") and len(tvals) > 1 and min(tvals[0], tvals[1]) < tc < max(tvals[0], tvals[1]):
+        # recorded finding D31 (C07, site first_step_whole_interval): the first adaptive step is the whole first interval; when that
+        # step straddles the kink of the right-hand side the embedded estimate can be deceived (ts=[0,3/7,1], tc=0.37: value error 4e-6
+        # at rtol 1e-9, 3e-9 with an extra point at 0.2).  Excluded here by a rule on the inputs, counted; C07 reports the finding.
+        return discard("first_interval_straddles_switch_D31", labels)
     y = xt_call(solve_ivp, fcn, ts, y0, params=params, method=method, _where="forward", **opts)
 
     def G(t):
